@@ -905,7 +905,8 @@ class Collocator:
             and flattened. If no common time period could be found, two None
             objects are returned.
         """
-        if max_interval is not None:
+        if max_interval is not None \
+                or start > datetime.min or end < datetime.max:
             timer = Timer().start()
             # We do not have to collocate everything, just the common time
             # period expanded by max_interval and limited by the global start
@@ -952,6 +953,18 @@ class Collocator:
     @staticmethod
     def _get_common_time_period(
             primary, secondary, max_interval, start, end):
+        if max_interval is None:
+            # Spatial search only: the time coverages do not have to overlap,
+            # the data is limited by the global start and end parameter alone.
+            times = np.concatenate(
+                [primary.time.values.ravel(), secondary.time.values.ravel()])
+            common_start = max(
+                start, pd.Timestamp(times.min().item(0)).tz_localize(None))
+            common_end = min(
+                end, pd.Timestamp(times.max().item(0)).tz_localize(None))
+            return Collocator._select_period(
+                primary, secondary, common_start, common_end)
+
         max_interval = pd.Timedelta(max_interval)
 
         # We want to select a common time window from both datasets,
@@ -970,6 +983,11 @@ class Collocator:
             pd.Timestamp(secondary.time.values.max().item(0)).tz_localize(None) + max_interval
         )
 
+        return Collocator._select_period(
+            primary, secondary, common_start, common_end)
+
+    @staticmethod
+    def _select_period(primary, secondary, common_start, common_end):
         primary_period = primary.time.where(
             (primary.time.values >= np.datetime64(common_start))
             & (primary.time.values <= np.datetime64(common_end))
